@@ -1324,11 +1324,20 @@ def b_reversed(ip, args, kw):
 
 def b_sorted(ip, args, kw):
     v = args[0]
+    if kw.get('key') is not None:
+        raise Unsupported('sorted() with a key function')
+    rev = kw.get('reverse', False)
+    if not isinstance(rev, bool):
+        raise Unsupported('sorted() with a symbolic reverse flag')
     items = ip.iter_values(v)
+    if isinstance(items, list):
+        items = [concrete_int(x) if (not isinstance(x, (int, float)) and is_z3(x) and concrete_int(x) is not None) else x for x in items]
     if isinstance(items, list) and len(items) <= 1:
         return list(items)
     if isinstance(items, list) and all(isinstance(x, (int, float)) and not isinstance(x, bool) for x in items):
-        return sorted(items)
+        return sorted(items, reverse=rev)
+    if rev:
+        raise Unsupported('sorted(reverse=True) of symbolic values')
     if isinstance(items, list) and len(items) <= 4 and all(is_num(x) for x in items):
         # sorting network via min/max (insertion sort on symbolic values)
         xs = list(items)
